@@ -65,7 +65,12 @@ func (p *Producer) UnmarshalJSON(b []byte) error {
 		TopologyRegion:   r.TopologyRegion,
 	}
 	for i, t := range r.Topics {
-		p.Topics = append(p.Topics, ProducerTopic{Topic: t, Tombstoned: r.Tombstoned[i]})
+		// be lenient with a tombstones list that is shorter than the topics list
+		tombstoned := false
+		if i < len(r.Tombstoned) {
+			tombstoned = r.Tombstoned[i]
+		}
+		p.Topics = append(p.Topics, ProducerTopic{Topic: t, Tombstoned: tombstoned})
 	}
 	version, err := semver.Parse(p.Version)
 	if err != nil {
